@@ -315,6 +315,7 @@ def rand_tree(rng: Any, ctx: Ctx, complex_ok: bool = False) -> Any:
 def case_tree(rng: Any, ctx: Ctx, index: int) -> None:
     what = gen.pick(rng, ['dot', 'dot-complex', 'zeros_like', 'ones_like', 'full_like', 'normal_like', 'uniform_like',
                           'as_promoted_dtype', 'as_promoted_dtype-struct', 'as_promoted_dtype-weak', 'like-history', 'like-mode-toggle',
+                          'uniform-range', 'stokes-getitem',
                           'as_structure', 'is_leaf'])
     x = rand_tree(rng, ctx, complex_ok='complex' in what)
     as_struct = bool(rng.integers(2))
@@ -391,6 +392,29 @@ def case_tree(rng: Any, ctx: Ctx, index: int) -> None:
             LOG.count('C20.tree.weak', f'{weak.dtype}+{"/".join(sorted({str(l.dtype) for l in ls[:i] + ls[i + 1:]}))}->{prom}')
             if any(a.dtype != prom for a in ly):
                 LOG.violation('C20', mon, 'as_promoted_dtype-weak/dtype', f'{[str(a.dtype) for a in ly]} vs promoted {prom} (one weakly typed leaf)')
+        elif what == 'uniform-range':
+            # bounds with a non-zero lower bound on a leaf large enough for the statistics to be safe (64+ draws)
+            lo_, hi_ = gen.pick(rng, [(-1.0, 2.0), (1.0, 3.0), (2.0, 2.5), (-3.0, -1.0)])
+            st = jax.tree.map(lambda l: jax.ShapeDtypeStruct((64,) + tuple(l.shape), jnp.float32), struct)
+            yu = T.uniform_like(st, jax.random.PRNGKey(int(rng.integers(1 << 30))), lo_, hi_)
+            for a_ in jax.tree.leaves(yu):
+                v = np.asarray(a_, np.float64)
+                if v.min() < lo_ or v.max() > hi_ or v.max() < lo_ + 0.75 * (hi_ - lo_) or v.min() > lo_ + 0.25 * (hi_ - lo_):
+                    LOG.violation('C20', mon, 'uniform_like/range', f'draws in [{v.min():.3g}, {v.max():.3g}] for bounds ({lo_}, {hi_})')
+                    return
+        elif what == 'stokes-getitem':
+            from furax.landscapes import StokesPyTree
+            cls_ = gen.pick(rng, gen.STOKES)
+            shp = (3, 4, 5)
+            xs = cls_(*[jnp.asarray(rng.integers(-8, 9, size=shp), dtype=jnp.float32) for _ in cls_.stokes])
+            idx_ = gen.pick(rng, [(1, 2), (slice(None), 1), (Ellipsis, 2), (0, slice(None), 3), 1, slice(0, 2), (np.array([0, 2]), np.array([1, 3]))])
+            got = xs[idx_]
+            for c_ in cls_.stokes:
+                exp_ = np.asarray(getattr(xs, c_.lower()))[idx_]
+                g_ = np.asarray(getattr(got, c_.lower()))
+                if g_.shape != exp_.shape or not np.array_equal(g_, exp_):
+                    LOG.violation('C20', mon, 'StokesPyTree.__getitem__/not-leafwise', f'{cls_.__name__}[{idx_!r}]: component {c_} has shape {g_.shape}, leaf-wise indexing gives {exp_.shape}')
+                    return
         elif what == 'like-history':
             # a sequence of calls on the same structure: each result depends on its own fill value only
             seq = [gen.pick(rng, [0, 0.0, False, -0.0, 1, 1.0, True, 3, -2.5]) for _ in range(int(rng.integers(2, 5)))] + [-0.0]
